@@ -7,11 +7,13 @@ package kvindex
 // RemoveField drops one field from the in-memory registry and touches nothing
 // else in it (its key-value effects are stated under C09).
 //@ func (*KVIndex).RemoveField
-//@   property C16 C09
-//@   option prelude=keys
+//@   property C16 C09 C03
+//@   option prelude=keys,kv
 //@   option load=kvi
+//@   option globals=kvindex
 //@   modifies MapD.Str MapN KV.
-//@   requires nonnil: idx != nil && idx.Fields != nil
+//@   requires nonnil: idx != nil && idx.Fields != nil && idx.KV != nil
+//@   ensures kvframe: forall k:Str :: !idxkey(k) ==> ((kvhas(k) <==> old(kvhas(k))) && kvval(k) == old(kvval(k)))
 //@   ensures gone: !has(idx.Fields, path)
 //@   ensures others: forall f:Str :: f != path ==> (has(idx.Fields, f) <==> old(has(idx.Fields, f)))
 
@@ -31,3 +33,14 @@ package kvindex
 //@   trusted
 //@   modifies KV.
 //@   ensures frame: forall k:Str :: !idxkey(k) ==> ((kvhas(k) <==> old(kvhas(k))) && kvval(k) == old(kvval(k)))
+
+// AddField registers the field and persists its key; only index keys are written.
+//@ func (*KVIndex).AddField
+//@   property C03 C09
+//@   option prelude=keys,kv
+//@   option load=kvi
+//@   option globals=kvindex
+//@   modifies MapD.Str MapN MapV. SH. alloc KV.
+//@   requires nonnil: idx != nil && idx.Fields != nil && idx.KV != nil
+//@   ensures registered: has(idx.Fields, path)
+//@   ensures kvframe: forall k:Str :: !idxkey(k) ==> ((kvhas(k) <==> old(kvhas(k))) && kvval(k) == old(kvval(k)))
